@@ -505,7 +505,11 @@ const (
 
 var concOpNames = []string{"Render(shared)", "RenderString(shared)", "FRender(shared)", "ParseTemplate+Render", "ParseAndRenderString"}
 
-func concEngine(spec *concSpec) *liquid.Engine {
+func concEngine(spec *concSpec) *liquid.Engine { return concEngineWith(spec, true) }
+
+// concEngineWith: withCache=false leaves out the ParseTemplateAndCache calls, so that the engine has been
+// configured (delimiters, filters, tags) but has not parsed anything yet.
+func concEngineWith(spec *concSpec, withCache bool) *liquid.Engine {
 	e := liquid.NewEngine()
 	if spec.Strict {
 		e.StrictVariables()
@@ -519,6 +523,9 @@ func concEngine(spec *concSpec) *liquid.Engine {
 		s, err := c.InnerString()
 		return "{" + s + "}", err
 	})
+	if !withCache {
+		return e
+	}
 	// configuration step: sources the include tag finds through the engine's cache
 	for path, src := range map[string]string{
 		"inc/part.html": `part({{ s | downcase }}{% for i in arr %}{% cycle "p", "q" %}{% endfor %})`,
@@ -699,6 +706,41 @@ func concWorkerMain(specPath string) int {
 		for k := range want {
 			res.Want = append(res.Want, spec.Templates[k].Src+"  =>  "+want[k][opRenderShared])
 		}
+	}
+
+	// Phase 1b — FIRST PARSES, CONCURRENTLY: an engine that has been configured but has not parsed anything yet; every
+	// goroutine starts by parsing (anything built lazily on the first parse is built under contention).
+	{
+		e1 := concEngineWith(spec, false)
+		b1 := realise()
+		var wg1 sync.WaitGroup
+		var mu1 sync.Mutex
+		start1 := make(chan struct{})
+		for g := 0; g < spec.N; g++ {
+			wg1.Add(1)
+			go func(g int) {
+				defer wg1.Done()
+				<-start1
+				for i := 0; i < 4; i++ {
+					k := (g*7 + i) % T
+					t := spec.Templates[k]
+					if strings.Contains(t.Src, "include") {
+						continue // cached include sources are not registered on this engine
+					}
+					got := concDo(e1, spec, t, nil, "", opParseRender, b1)
+					if got != want[k][opParseRender] {
+						mu1.Lock()
+						res.NMismatch++
+						if len(res.Mismatches) < 10 {
+							res.Mismatches = append(res.Mismatches, concMismatch{g, "first ParseTemplate+Render", t.Src, got, want[k][opParseRender]})
+						}
+						mu1.Unlock()
+					}
+				}
+			}(g)
+		}
+		close(start1)
+		wg1.Wait()
 	}
 
 	// Phase 2 — CONCURRENT: one engine, one set of parsed templates, one set of bindings.
